@@ -189,6 +189,9 @@ def main():
                     known_hit.append((ob.name, kf, rr))
                 else:
                     violations.append((ob.name, rpath, rr))
+            elif rr["outcome"] == "slice-broken":
+                rec["verdict"] = "NOT-ENCODED"
+                not_encoded.append((ob.name, "the statements sliced from the current source no longer stand on their own (%s)" % rr.get("tag")))
             elif rr["outcome"] in ("not-reproduced", "pre-false"):
                 inconclusive.append((ob.name, "counterexample from the solver does not reproduce on the real code (%s)" % rr["outcome"]))
             else:
